@@ -745,7 +745,16 @@ impl Version {
         let first_key: &[u8] = &sst.first_key;
         let last_key: &[u8] = &sst.last_key;
         let upper_level = lower_level + 1;
+        // An sst that shares a boundary key with a sibling in its own level cannot move alone:
+        // the versions of that key would end up out of order across levels.
+        let shares_boundary = lower_level > 0
+            && self.levels[lower_level].ssts.iter().any(|x| {
+                !Arc::ptr_eq(x, sst)
+                    && x.first_key.as_slice() <= last_key
+                    && first_key <= x.last_key.as_slice()
+            });
         if upper_level < self.levels.len()
+            && !shares_boundary
             && self.levels[upper_level].lower_bound(first_key)
                 == self.levels[upper_level].upper_bound(last_key)
         {
